@@ -287,7 +287,7 @@ func propTagsRun(t *vt.T) {
 	dirsV, patsV := runDirs, runPatterns
 	if gbMode == 2 {
 		dirsV = []string{"info", "data", "2024", "7x", "2024", "7x"}
-		patsV = []string{`^info`, `^2024`, `^data`, `^2024`, `^(info|7x)`, `^7x`}
+		patsV = []string{`^info`, `^2024`, `^data`, `^(2024|data)`, `^(info|7x)`, `^7x`}
 		t.Class("group-by-with-empty-capture")
 	}
 	np := t.IntRange("nPatternTags", 0, 3)
